@@ -1291,13 +1291,18 @@ def check_C05(tier: str, seed: int) -> int:
         nmodel = 0
         # observations are large (every image of every loadable input, ~25 canvas-sized images each): compare batch by batch, a
         # batch being at most 4000 inputs and at most ~60 M observed pixels (the parsed observations of the two builds then
-        # stay below ~5 GB)
+        # stay below ~5 GB).  Images of more than DIGEST pixels - canvases of millions of pixels that a corrupted size field
+        # produces - are rendered and walked like all others but reported by the driver as dimensions + a hash
+        # (VERIF_IMAGE_DIGEST), and the model is not run on those inputs.
+        DIGEST = 1 << 20
         def canvas_of(path):
             h = open(path, "rb").read(12)
-            return min(16 << 20, max(1, int.from_bytes(h[8:10], "little") * int.from_bytes(h[10:12], "little"))) if len(h) == 12 else 1
+            return max(1, int.from_bytes(h[8:10], "little") * int.from_bytes(h[10:12], "little")) if len(h) == 12 else 1
+        canv = [canvas_of(path) for path in lp]
+        msel = {k for k in msel if canv[k] <= DIGEST}
         batches, cur, cost = [], [], 0
         for k, path in enumerate(lp):
-            c = 25 * canvas_of(path) + 500
+            c = 25 * min(canv[k], DIGEST) + 500
             if cur and (len(cur) >= 4000 or cost + c > 60_000_000):
                 batches.append(cur)
                 cur, cost = [], 0
@@ -1309,7 +1314,8 @@ def check_C05(tier: str, seed: int) -> int:
             lo_ = idx[0]
             blp = [lp[k] for k in idx]
             t_ = time.time()
-            res = {prof: vplib.impl_observe(prof, blp, w.dir, 31, max_frames=3, max_layers=6, timeout=2400, mem_kb=4 * 1024 * 1024, tag="walk%d" % lo_)
+            res = {prof: vplib.impl_observe(prof, blp, w.dir, 31, max_frames=3, max_layers=6, timeout=2400, mem_kb=4 * 1024 * 1024, tag="walk%d" % lo_,
+                                            extra_env={"VERIF_IMAGE_DIGEST": str(DIGEST)})
                    for prof in ("dev", "relchk")}
             log("C05 batch %d: walks of %d inputs in %.1fs" % (lo_, len(blp), time.time() - t_))
             t_ = time.time()
@@ -1340,7 +1346,8 @@ def check_C05(tier: str, seed: int) -> int:
                     for l in b[0]:
                         if l[0] in (22, 24, 27) and hdr:
                             off = {22: 2, 24: 3, 27: 3}[l[0]]
-                            if l[off:off + 2] != hdr[1:3] or len(l) != off + 2 + hdr[1] * hdr[2]:
+                            digest = hdr[1] * hdr[2] > DIGEST and len(l) == off + 5 and l[off + 2] == -1
+                            if l[off:off + 2] != hdr[1:3] or not (digest or len(l) == off + 2 + hdr[1] * hdr[2]):
                                 direct_fail.append({"what": "image does not have the canvas dimensions", "line": l[:5], "_data": open(p, "rb").read()})
                                 break
             del res, mres, mb
